@@ -479,6 +479,9 @@ def lift_construct(cls):
                 src = unwrap_array(v)
                 if not is_name(src, pv):
                     raise U(MF, f"column value is not the parameter value: {ast.unparse(st)}")
+                if not (isinstance(v, ast.Call) and dotted(v.func) in ("np.asarray", "np.array")):
+                    raise U(MF, "the sample parameter is stored without np.asarray(...): a pandas Series would be joined to the "
+                            f"rows by index label, not by position: {ast.unparse(st)}")
                 if not guarded:
                     raise U(MF, "column assignment before the None guard")
                 if tg.slice.id not in uniquified:
